@@ -382,8 +382,9 @@ def _machine_classes():
                         mask |= cm
                 if not mask:
                     continue
-                miss = self.ctx.bool("miss_f%d_x%d_y%d" % (
-                    f.index, chip[0], chip[1]))
+                miss = False if getattr(self, "reliable", False) else \
+                    self.ctx.bool("miss_f%d_x%d_y%d" % (
+                        f.index, chip[0], chip[1]))
                 if bool(miss):
                     f.missed.append(chip)
                     continue
@@ -464,6 +465,11 @@ SHAPES = {
                                     {(1, 0): (2,), (4, 1): (1, 2)}],
     "2 binaries 6 cores": [{(0, 0): (1, 17), (1, 0): (1,)},
                            {(1, 0): (16,), (0, 1): (1, 16)}],
+    # a whole aligned 16x16 block for one core (the region tree collapses it
+    # twice) with a second core on two chips inside it
+    "16x16 block + 2 cores": [dict(
+        [((x, y), (1,)) for x in range(16) for y in range(16)] +
+        [((3, 5), (1, 2)), ((9, 9), (1, 2))])],
 }
 BYSTANDERS = [(1, 1), (2, 3), (8, 8)]
 SIZE_CODES = {"-4": lambda b: b - 4, "0": lambda b: b, "+4": lambda b: b + 4,
@@ -526,7 +532,7 @@ def _flat(app_map):
 
 # ----------------------------------------------------------------------
 def h_load(ctx, shapes, bufs, sizes, tries, modes, nn_starts, pres,
-           rebuilt=False):
+           rebuilt=False, reliable=False):
     from models.net import World
     from models.machine import ControllerPatch
     from harness.c12 import well_formed, pair_lt, beq
@@ -558,6 +564,7 @@ def h_load(ctx, shapes, bufs, sizes, tries, modes, nn_starts, pres,
 
     FillMachine = _machine_classes()
     machine = FillMachine(ctx, chips, buf)
+    machine.reliable = reliable
     if pre:
         machine.cores[PRE_CORE] = Core(ST_WAIT, pre_app, OLD_IMAGE, -1)
     world = World(ctx, machine=machine, faults=0, prompt=True,
@@ -897,6 +904,11 @@ def units(tier, seed):
         pres=(True,) if q else (False, True), split=7,
         witnesses=W + ("waiting core under the same app id",
                        "waiting core under another app id"))
+    # a large map on a machine that misses nothing (no fault booleans): the
+    # region list of a collapsing block is what the loader is sent
+    unit("16x16 block, reliable machine", shapes=("16x16 block + 2 cores",),
+         tries=(1,), modes=ALL_MODES, reliable=True, split=0,
+         witnesses=("returned",))
     # the binaries were rebuilt in place (same path and size) after an
     # earlier flood fill of this process had sent the previous build
     unit("binaries rebuilt in place after an earlier fill", shapes=(
